@@ -544,4 +544,89 @@ theorem multi_text (body : Body) (sN ctx : Str) (line : Nat) (log : List Report)
     | nil => simp [keyPeek, mkTok]
     | cons d r => simp [keyPeek, mkTok, hcol d r rfl]
 
+/-! ### triple-quoted strings (CIF 2.0) -/
+
+/-- scan_triple_delim_string (any delimiter count / begin-of-line state in front; both reset behind) -/
+def EvTriple (q : Nat) (e : Ev) : Prop :=
+  ∀ (R : Str) (line col : Nat) (acc : Str) (cnt sol : Nat) (log : List Report),
+    scanTriple .cif2 q (e.inp ++ R) line col false acc cnt sol acceptAll log
+      = scanTriple .cif2 q R line (col + e.adv) false (e.out.reverse ++ acc) 0 0 acceptAll (e.reps line col ++ log)
+
+theorem EvTriple.of1 {c c' : Nat} {reps : Nat → Nat → List Report} (hD : Defect1 .cif2 c c' reps) (q : Nat) (hq : q = 34 ∨ q = 39) :
+    EvTriple q (Ev.of1 c c' reps) := by
+  intro R line col acc cnt sol log
+  simpa [Ev.of1] using hD.triple_step q (quote_class .cif2 q hq) R line col acc cnt sol log
+
+theorem EvTriple.lead (l x : Nat) (hl : isLeadU l = true) (hx : plainUnit x) (q : Nat) (hq : q = 34 ∨ q = 39) (hxq : x ≠ q)
+    (heol : classOf .cif2 x ≠ .eol) : EvTriple q (Ev.lead l x) := by
+  intro R line col acc cnt sol log
+  obtain ⟨e1, e2⟩ := lead_then_plain l x hl hx line col acc log
+  have hlw : ¬ classOf .cif2 l = .eol := by rw [lead_cls l hl]; decide
+  have hlq : ¬ l = q := by simp [isLeadU] at hl; rcases hq with h | h <;> omega_cu
+  simp only [Ev.lead, List.cons_append, List.nil_append]
+  conv => lhs; simp only [scanTriple, bind_eq, pure_eq]
+  rw [L.bind_ok e1]
+  simp only [fixAcc_false, hlw, hlq, if_false]
+  conv => lhs; simp only [scanTriple, bind_eq, pure_eq]
+  rw [L.bind_ok e2]
+  simp [fixAcc, replChar, heol, hxq]
+
+/-- the runs never hold three delimiters in a row (they may end with one or two), their lines fit; the events are events of
+    scan_triple_delim_string -/
+def Body.tripleOk (q : Nat) : Nat → Nat → Body → Prop
+  | _, _, [] => True
+  | line, col, (s, e) :: r =>
+    okUnits .cif2 none s = true ∧ tripleOpen q 0 s = true ∧ linesFit col s = true ∧ EvTriple q e
+      ∧ Body.tripleOk q (posAfter line col s).1 ((posAfter line col s).2 + e.adv) r
+
+theorem multi_triple_scan (q : Nat) (hq : q = 34 ∨ q = 39) : ∀ (body : Body) (R : Str) (line col : Nat) (acc : Str) (log : List Report),
+    Body.tripleOk q line col body →
+    scanTriple .cif2 q (body.inp ++ R) line col false acc 0 0 acceptAll log
+      = scanTriple .cif2 q R (body.tpos line col).1 (body.tpos line col).2 false (body.out.reverse ++ acc) 0 0 acceptAll
+          (body.treps line col ++ log)
+  | [], R, line, col, acc, log, _ => by simp [Body.inp, Body.out, Body.tpos, Body.treps]
+  | (s, e) :: r, R, line, col, acc, log, h => by
+    obtain ⟨h1, h2, h3, h4, h5⟩ := h
+    obtain ⟨cnt', sol', _, hp⟩ := scanTriple_prefix q hq (e.inp ++ (Body.inp r ++ R)) acceptAll log s none acc line col 0 0 h1 trivial h2
+      (by decide) h3
+    simp only [Option.isSome_none] at hp
+    have ih := multi_triple_scan q hq r R (posAfter line col s).1 ((posAfter line col s).2 + e.adv) (e.out.reverse ++ (s.reverse ++ acc))
+      (e.reps (posAfter line col s).1 (posAfter line col s).2 ++ log) h5
+    simp only [Body.inp, List.append_assoc]
+    rw [hp, h4, ih]
+    simp [Body.out, Body.tpos, Body.treps, List.append_assoc]
+
+/-- **a triple-quoted string with any number of defective places, on any of its lines** -/
+theorem multi_triple (q : Nat) (hq : q = 34 ∨ q = 39) (body : Body) (sN ctx : Str) (line col : Nat) (log : List Report)
+    (hb : Body.tripleOk q line (col + 3) body) (hN : Spec.Lexical.tripleOk .cif2 q sN = true)
+    (hfit : linesFit (body.tpos line (col + 3)).2 sN = true) (hctx : followOk .cif2 ctx = true) :
+    stepTok .cif2 true q (q :: q :: (body.inp ++ (sN ++ q :: q :: q :: ctx))) line col acceptAll log
+      = .ok (.tok ⟨.qvalue, body.out ++ sN, (posAfter (body.tpos line (col + 3)).1 (body.tpos line (col + 3)).2 sN).1,
+                    (posAfter (body.tpos line (col + 3)).1 (body.tpos line (col + 3)).2 sN).2 + 3⟩
+                  ⟨ctx, (posAfter (body.tpos line (col + 3)).1 (body.tpos line (col + 3)).2 sN).1,
+                    (posAfter (body.tpos line (col + 3)).1 (body.tpos line (col + 3)).2 sN).2 + 3⟩)
+          (body.treps line (col + 3) ++ log) := by
+  simp only [Spec.Lexical.tripleOk, Bool.and_eq_true] at hN
+  obtain ⟨⟨_, hNo⟩, hNb⟩ := hN
+  have hscan : scanTriple .cif2 q (body.inp ++ (sN ++ q :: q :: q :: ctx)) line (col + 1 + 2) false [] 0 0 acceptAll log
+      = .ok ⟨(body.out ++ sN).reverse, ⟨ctx, (posAfter (body.tpos line (col + 3)).1 (body.tpos line (col + 3)).2 sN).1,
+                    (posAfter (body.tpos line (col + 3)).1 (body.tpos line (col + 3)).2 sN).2 + 3⟩⟩
+          (body.treps line (col + 3) ++ log) := by
+    have e3 : col + 1 + 2 = col + 3 := by omega
+    rw [e3, multi_triple_scan q hq body _ line (col + 3) [] log hb]
+    have := scanTriple_ok q hq ctx acceptAll (body.treps line (col + 3) ++ log) sN none (body.out.reverse ++ [])
+      (body.tpos line (col + 3)).1 (body.tpos line (col + 3)).2 0 0 hNo trivial hNb (by decide) hfit
+    simp only [Option.isSome_none] at this
+    rw [this]
+    simp
+  have hscan' := (scanDelim_triple_open q hq (body.inp ++ (sN ++ q :: q :: q :: ctx)) line (col + 1) acceptAll log).trans hscan
+  rw [quote_dispatch .cif2 q hq, L.bind_ok hscan']
+  cases ctx with
+  | nil => simp [keyPeek, mkTok]
+  | cons d r =>
+    have : ¬ d = colon := by
+      simp only [followOk, isWs, isBlank, isEol, Bool.or_eq_true, beq_iff_eq, Bool.and_eq_true] at hctx
+      simp only [colon]; omega_cu
+    simp [keyPeek, mkTok, this]
+
 end CifModel.Model.Lexer
